@@ -58,8 +58,27 @@ class FakePath(object):
     def isfile(self, p):
         return self.fs.kind(p) == "file"
 
-    def join(self, a, b):
-        return a.rstrip("/") + "/" + b
+    def join(self, a, *more):
+        for b in more:
+            a = b if b.startswith("/") else a.rstrip("/") + "/" + b
+        return a
+
+    def relpath(self, p, start="."):
+        p, start = p.rstrip("/"), start.rstrip("/")
+        if p == start:
+            return "."
+        if p.startswith(start + "/"):
+            return p[len(start) + 1:]
+        raise ValueError("model file system: %r is not below %r" % (p, start))
+
+    def basename(self, p):
+        return p.rstrip("/").split("/")[-1]
+
+    def dirname(self, p):
+        return "/".join(p.rstrip("/").split("/")[:-1])
+
+    def exists(self, p):
+        return self.fs.kind(p) is not None
 
     def getsize(self, p):
         if self.fs.kind(p) != "file":
@@ -73,6 +92,8 @@ class StatResult(object):
 
 
 class FakeOS(object):
+    curdir, pardir, sep = ".", "..", "/"
+
     def __init__(self, fs):
         self.fs = fs
         self.path = FakePath(fs)
@@ -82,6 +103,23 @@ class FakeOS(object):
         if f is None or f.closed:
             raise OSError(9, "Bad file descriptor")
         return StatResult(SymInt(self.fs.nodes[f.path][1].length_term()))
+
+    def walk(self, top, topdown=True, onerror=None, followlinks=False):
+        """os.walk over the model tree (top-down; the caller may prune `dirnames` in place)"""
+        if self.fs.kind(top) != "dir":
+            if onerror is not None:
+                onerror(OSError("not a directory: %r" % top))
+            return
+        names = self.fs.listdir(top)
+        dirs = [n for n in names if self.fs.kind(self.path.join(top, n)) == "dir"]
+        files = [n for n in names if self.fs.kind(self.path.join(top, n)) != "dir"]
+        if topdown:
+            yield top, dirs, files
+        for d in list(dirs):
+            for x in self.walk(self.path.join(top, d), topdown, onerror, followlinks):
+                yield x
+        if not topdown:
+            yield top, dirs, files
 
     def stat(self, p):
         if self.fs.kind(p) is None:
